@@ -702,7 +702,7 @@ class SAMIParser(HTMLParser):
             self.sami += f"</{closing_tag}>"
 
     def handle_entityref(self, name):
-        if name in ['gt', 'lt']:
+        if name in ['gt', 'lt', 'amp']:
             self.sami += f'&{name};'
         else:
             try:
@@ -713,10 +713,13 @@ class SAMIParser(HTMLParser):
         self.last_element = ''
 
     def handle_charref(self, name):
-        if name[0] == 'x':
-            self.sami += chr(int(name[1:], 16))
+        if name[0] in 'xX':
+            char = chr(int(name[1:], 16))
         else:
-            self.sami += chr(int(name))
+            char = chr(int(name))
+        # the text is parsed once more by BeautifulSoup: keep markup
+        # characters (&#38; &#60; &#62;) encoded
+        self.sami += escape(char)
 
     # override the parser's handling of data
     def handle_data(self, data):
